@@ -33,6 +33,18 @@ class Check(RuntimeCheck):
             case_prefixes = ('own.default', 'rc.default.shared', 'arc.default.shared')
             facts_of_interest = r'$^'
         Generated().explore_into(rep, tier, seed, ir=False, merge=True)
+        # counts at the bound reached by calls made at the same time through clones: under every schedule the verdict is the sequential one
+        from ..parcheck import ParCheck, par_scenario
+        class Par(ParCheck):
+            prop = 'C03'
+            def scenarios(self, tier, seed):
+                exact = term(1, 'each', Pat(mask=255, chain=[seg('ret1', 'n2')]))
+                atleast = tup([term(1, 'some', Pat(mask=255, chain=[seg('ret1', 'al3')])), term(5, 'each', Pat(mask=255, chain=[seg('ret2', 'n1')]))])
+                fams = [('v2x1', exact, [[(1, 0)], [(1, 0)]]), ('v3x1', exact, [[(1, 0)], [(1, 0)], [(1, 0)]]), ('va2', atleast, [[(1, 0), (1, 0)], [(1, 0), (5, 0)]])]
+                return [(n, par_scenario(n, 'strict', tree, threads, False)) for n, tree, threads in fams]
+            def caps(self, tier):
+                return (800, 40) if tier == 'quick' else (30000, 1500)
+        Par().explore_into(rep, tier, seed, merge=True)
 
     def run(self, tier, seed, replay=None):
         # re-translate the verification / slot-ownership functions of src/counter.rs and src/fn_mocker.rs first
